@@ -128,6 +128,7 @@ def empty_set():
 
 # uninterpreted vocabulary of semantic models (proofs hold for every model)
 set_mem = z3.Function('set_mem', SetS, Val, Bool)
+set_of_seq = z3.Function('set_of_seq', SeqVal, SetS)      # the set of a sequence's elements
 m_has = z3.Function('m_has', ModelS, String, Bool)          # _role_re.match(role) is not None
 m_noop = z3.Function('m_noop', ModelS, Bool)                # NoOpModel (overrides deinvert)
 m_norm_has = z3.Function('m_norm_has', ModelS, String, Bool)   # role in normalizations
